@@ -138,6 +138,7 @@ def monitors(chk, case, items, obs):
     routes, tx_routes = case['rx'], case['tx']
     accepted = set()
     assigned = set()     # numbers the agent gave to blocks it added in earlier forwards
+    attempts = 0         # earlier idle _do_fwd runs in this history
     by_item = {}
     for o in obs:
         by_item.setdefault(o['item'], []).append(o)
@@ -165,7 +166,9 @@ def monitors(chk, case, items, obs):
             want_del = 1 if (act == 'deliver' and not frag) else 0
             has_tx = any(re.compile(pt).match(dest) is not None for (pt, _m) in tx_routes)
             want_fw = 1 if (act == 'forward' and has_tx) else 0
-            clash = [k['n'] for k in it['b']['blocks'] if k['n'] in assigned]
+            # numbers assigned during an earlier forwarding attempt stick even when that attempt sent nothing
+            # (no transmit route): then they cannot be read off the wire; any extension block may clash
+            clash = [k['n'] for k in it['b']['blocks'] if k['n'] in assigned or (attempts and k['n'] != 1)]
             if want_fw == 1 and not fw and not ndel and clash:
                 chk.violation('C10:forward-dropped-block-number-collision',
                               'bundle %s routed forward (TX route present) was dropped: its block number(s) %s equal '
@@ -178,6 +181,8 @@ def monitors(chk, case, items, obs):
                               % (dest, routes, act, want_del, want_fw, ndel, len(fw)), case)
             if len(rp) > 1:
                 chk.violation('C10:more-than-one-report', 'identity %s reported %d times' % (idt, len(rp)), case)
+        if any(o['k'] == 'fwd' for o in main):
+            attempts += 1
         for d in fw:
             for k in d.blocks:
                 if k['t'] in (6, 7) and not any(r['n'] == k['n'] and r['t'] == k['t'] and r['btsd'] == k['btsd']
